@@ -214,9 +214,73 @@ fn fragexp() -> ! {
     std::process::exit(0)
 }
 
+/// `props <p2m|m2p2m> CLS:key:value ...`: the proplist/map helpers on a concrete list / map, compared with an independent
+/// association-list reference (exit 101 = an entry is lost, altered or invented)
+fn props(a: &[String]) -> ! {
+    use erltf::OwnedTerm as T;
+    let true_tok: u64 = 0x5ffe533b830f08a0; // first 8 bytes of sha1("true"), the token the model uses for the atom 'true'
+    let atom = |k: u64| if k == true_tok { T::atom("true") } else { T::atom(format!("k{}", k).as_str()) };
+    let mut list: Vec<T> = vec![];
+    let mut keyed: Vec<(T, T)> = vec![];
+    for e in &a[3..] {
+        let p: Vec<&str> = e.split(':').collect();
+        let k: u64 = p[1].parse().unwrap();
+        let v = T::Integer(p[2].parse::<u64>().unwrap() as i64);
+        let key = match p[0] {
+            "TA" | "A" | "T3" => atom(k),
+            "TI" | "I" => T::Integer(k as i64),
+            "TB" => T::Binary(k.to_be_bytes()[5..].to_vec()),
+            _ => T::Tuple(vec![T::Integer(k as i64)]),
+        };
+        match p[0] {
+            "A" => {
+                list.push(key.clone());
+                keyed.push((key, T::atom("true")));
+            }
+            "I" => list.push(key),
+            "T3" => list.push(T::Tuple(vec![key, v.clone(), v])),
+            _ => {
+                list.push(T::Tuple(vec![key.clone(), v.clone()]));
+                keyed.push((key, v));
+            }
+        }
+    }
+    // reference: last value per key, by ==
+    let mut want: Vec<(T, T)> = vec![];
+    for (k, v) in keyed {
+        if let Some(e) = want.iter_mut().find(|(k2, _)| *k2 == k) {
+            e.1 = v;
+        } else {
+            want.push((k, v));
+        }
+    }
+    let got = if a[2] == "p2m" {
+        T::List(list).proplist_to_map()
+    } else {
+        let m: std::collections::BTreeMap<T, T> = want.iter().cloned().collect();
+        match T::Map(m).map_to_proplist() {
+            Ok(pl) => pl.proplist_to_map(),
+            Err(e) => Err(e),
+        }
+    };
+    let ok = match &got {
+        Ok(T::Map(m)) => m.len() == want.len() && want.iter().all(|(k, v)| m.get(k) == Some(v)),
+        _ => false,
+    };
+    if !ok {
+        eprintln!("REPLAY: helpers gave {:?}, the reference association list is {:?}", got, want);
+        std::process::exit(101);
+    }
+    println!("REPLAY: helpers agree with the reference");
+    std::process::exit(0)
+}
+
 fn main() {
     let a: Vec<String> = std::env::args().collect();
     let kind = a[1].as_str();
+    if kind == "props" {
+        props(&a);
+    }
     if kind == "fragexp" {
         fragexp();
     }
